@@ -17,7 +17,7 @@ def configs(rng, quick):
                 {"storage": "file", "copy_to_ram": True}]
     fronts = [{"frontend": "plain"}, {"frontend": "buffered", "limit": 2}, {"frontend": "buffered", "limit": 100},
               {"frontend": "buffered", "limit": 1, "explicit_commit": False},
-              {"frontend": "async"},
+              {"frontend": "async"}, {"frontend": "async", "contended": True},
               {"frontend": "mp", "procs": 2, "batchsize": 2, "multisegment": False},
               {"frontend": "mp", "procs": 3, "batchsize": 1, "multisegment": True},
               {"frontend": "mp", "procs": 1, "batchsize": 4, "multisegment": False}]
@@ -33,7 +33,7 @@ def configs(rng, quick):
         # every front-end at least once, storages sampled
         byfe = {}
         for c in out:
-            byfe.setdefault((c["frontend"], c.get("limit"), c.get("procs")), []).append(c)
+            byfe.setdefault((c["frontend"], c.get("limit"), c.get("procs"), c.get("contended")), []).append(c)
         out = [rng.choice(v) for v in byfe.values()] + rng.sample(out, 3)
     return out
 
